@@ -152,7 +152,7 @@ macro_rules! rt_pkg {
             Err(e) => $ctx.fail("C12/value-does-not-encode", format!("{}: real value does not encode: {e:?}", $name))?,
         }
         match serde_json::to_string(v) {
-            Ok(s) => match serde_json::from_str::<$T>(&s) {
+            Ok(s) => match json_all_routes::<$T>(&s) {
                 Ok(v2) => ensure!($ctx, v2 == *v, "C12/json-roundtrip-changes-value", "{}: decode(encode(v)) != v (JSON)", $name),
                 Err(e) => $ctx.fail("C12/own-encoding-rejected", format!("{}: JSON encoding of a real value does not decode: {e}: {s}", $name))?,
             },
@@ -174,7 +174,7 @@ macro_rules! rt_prim {
             Err(e) => $ctx.fail("C12/own-encoding-rejected", format!("{}: encoding of a real value does not decode: {e:?}", $name))?,
         }
         match serde_json::to_string(v) {
-            Ok(s) => match serde_json::from_str::<$T>(&s) {
+            Ok(s) => match json_all_routes::<$T>(&s) {
                 Ok(v2) => ensure!($ctx, v2 == *v, "C12/json-roundtrip-changes-value", "{}: decode(encode(v)) != v (JSON)", $name),
                 Err(e) => $ctx.fail("C12/own-encoding-rejected", format!("{}: JSON encoding does not decode: {e}: {s}", $name))?,
             },
@@ -199,7 +199,7 @@ macro_rules! rt_prim_e {
             Err(e) => $ctx.fail("C12/value-does-not-encode", format!("{}: real value does not encode: {e:?}", $name))?,
         }
         match serde_json::to_string(v) {
-            Ok(s) => match serde_json::from_str::<$T>(&s) {
+            Ok(s) => match json_all_routes::<$T>(&s) {
                 Ok(v2) => ensure!($ctx, v2 == *v, "C12/json-roundtrip-changes-value", "{}: decode(encode(v)) != v (JSON)", $name),
                 Err(e) => $ctx.fail("C12/own-encoding-rejected", format!("{}: JSON encoding does not decode: {e}: {s}", $name))?,
             },
